@@ -47,3 +47,53 @@ package bech32
 //@   loop 2 invariant i64(polymod) == bech32.cksum(hrp, len(hrp), data, len(data))
 //@   loop 2 invariant forall j :: 0 <= j && j < i ==> res[j] == u8((i64(polymod) >> u64(5 * (5 - j))) & 31)
 //@   loop 2 decreases 6 - i
+
+//@ func bech32.toBytes
+//@   ensures err == nil ==> len(result0) == len(chars) && freshornil(result0)
+//@   ensures err == nil ==> forall k :: 0 <= k && k < len(chars) ==> result0[k] < 32 && charset[int(result0[k])] == chars[k]
+//@   ensures err != nil ==> len(result0) == 0
+//@   modifies nothing
+//@   loop 1 invariant 0 <= i && i <= len(chars) && len(decoded) == i && cap(decoded) == len(chars) && fresh(decoded)
+//@   loop 1 invariant forall k :: 0 <= k && k < i ==> decoded[k] < 32 && charset[int(decoded[k])] == chars[k]
+//@   loop 1 decreases len(chars) - i
+
+//@ func bech32.toChars
+//@   ensures err == nil ==> len(result0) == len(data) && forall k :: 0 <= k && k < len(data) ==> data[k] < 32 && result0[k] == charset[int(data[k])]
+//@   ensures err != nil ==> len(result0) == 0
+//@   modifies nothing
+//@   loop 1 invariant len(result) == $i && cap(result) == len(data) && fresh(result)
+//@   loop 1 invariant forall k :: 0 <= k && k < $i ==> data[k] < 32 && result[k] == charset[int(data[k])]
+
+//@ func bech32.Decode
+//@   ensures err == nil ==> 8 <= len(bech) && len(bech) <= 90
+//@   ensures err == nil ==> forall k :: 0 <= k && k < len(bech) ==> 33 <= bech[k] && bech[k] <= 126
+//@   ensures err == nil ==> (forall k :: 0 <= k && k < len(bech) ==> bech[k] == bech32.lower(bech[k])) || (forall k :: 0 <= k && k < len(bech) ==> bech[k] == bech32.upper(bech[k]))
+//@   ensures err == nil ==> 1 <= len(result0) && len(result0) + 7 <= len(bech) && len(result1) == len(bech) - len(result0) - 7
+//@   ensures err == nil ==> bech[len(result0)] == '1' && forall k :: len(result0) < k && k < len(bech) ==> bech[k] != '1'
+//@   ensures err == nil ==> forall k :: 0 <= k && k < len(result0) ==> result0[k] == bech32.lower(bech[k])
+//@   ensures err == nil ==> forall k :: 0 <= k && k < len(result1) + 6 ==> result1[k] < 32 && charset[int(result1[k])] == bech32.lower(bech[len(result0) + 1 + k])
+//@   ensures err == nil ==> bech32.valid(result0, len(result0), result1, len(result1) + 6)
+//@   ensures err != nil ==> len(result0) == 0 && len(result1) == 0
+//@   modifies nothing
+//@   opaque bech32.step
+//@   loop 1 invariant 0 <= i && i <= len(bech) && forall k :: 0 <= k && k < i ==> 33 <= bech[k] && bech[k] <= 126
+//@   loop 1 decreases len(bech) - i
+//@   assert after ToLower#1: len(lower) == len(bech) && forall k :: 0 <= k && k < len(bech) ==> lower[k] == bech32.lower(bech[k])
+//@   assert after ToUpper#1: len(upper) == len(bech) && forall k :: 0 <= k && k < len(bech) ==> upper[k] == bech32.upper(bech[k])
+
+//@ func bech32.Encode
+//@   ensures err == nil ==> len(result0) == len(hrp) + 7 + len(data)
+//@   ensures err == nil ==> forall k :: 0 <= k && k < len(hrp) ==> result0[k] == hrp[k]
+//@   ensures err == nil ==> result0[len(hrp)] == '1' && forall k :: 0 <= k && k < len(data) ==> data[k] < 32 && result0[len(hrp) + 1 + k] == charset[int(data[k])]
+//@   ensures err == nil ==> forall j :: 0 <= j && j < 6 ==> result0[len(hrp) + 1 + len(data) + j] == charset[int((bech32.cksum(hrp, len(hrp), data, len(data)) >> u64(5 * (5 - j))) & 31)]
+//@   modifies nothing
+//@   opaque bech32.step
+//@   assert after append#1: len(combined) == len(data) && forall k :: 0 <= k && k < len(data) ==> combined[k] == data[k]
+//@   assert after append#2: len(combined) == len(data) + 6 && forall k :: 0 <= k && k < len(data) ==> combined[k] == data[k]
+//@   assert after append#2: forall j :: 0 <= j && j < 6 ==> combined[len(data) + j] == u8((bech32.cksum(hrp, len(hrp), data, len(data)) >> u64(5 * (5 - j))) & 31)
+
+//@ func bech32.ConvertBits
+//@   modifies nothing
+//@   loop 1 invariant filledBits < toBits && freshornil(regrouped)
+//@   loop 2 invariant filledBits < toBits && remFromBits <= 8 && freshornil(regrouped)
+//@   loop 2 decreases int(remFromBits)
